@@ -52,10 +52,26 @@ func runC02(c *core.Ctx) {
 	c.Doc("panic-propagates", 1, "no function of hseq / optics swallows a panic: where recover() answers non-nil, every path panics again")
 	panicPropagates(c, "panic-propagates", "hseq", "optics")
 
+	nt := constructCensus(c)
+	if nt == nil {
+		return
+	}
+
+	guardRules(c)
+
+	ptrTaint(c)
+	namesArity(c)
+	lookupLoud(c)
+	reflectorDyn(c, nt)
+}
+
+// constructCensus: values of the concrete lens type are constructed only in NewLens / NewReflector, and no optic is
+// re-typed by a conversion (who-may-construct over all loaded packages). Shared by C01 and C02.
+func constructCensus(c *core.Ctx) *types.Named {
 	nt := lensType(c)
 	if nt == nil {
 		c.Undecided("construct-census", "optics.lens", 0, "cannot discover the concrete lens type from NewLens")
-		return
+		return nil
 	}
 	ctors := map[*ssa.Function]bool{}
 	for _, n := range []string{"NewLens", "NewReflector"} {
@@ -124,12 +140,7 @@ func runC02(c *core.Ctx) {
 		c.Check(nCons >= 1, "construct-census", "optics."+nt.Obj().Name(), nt.Obj().Pos(), fmt.Sprintf("%d construction sites, all in the guarded constructors", nCons), "only %d construction sites found", nCons)
 	}
 
-	guardRules(c)
-
-	ptrTaint(c)
-	namesArity(c)
-	lookupLoud(c)
-	reflectorDyn(c, nt)
+	return nt
 }
 
 // ptrTaint: D1.
